@@ -307,10 +307,70 @@ func C10(tier string) int {
 		e.Explore()
 		add(evals, classes, outs, viols, samples)
 	})
+	// ---- part 4: the ...Scheme entry points ------------------------------------------------------
+	// Every corpus scenario again in a world whose own IRIs are http://..., through PostInboxScheme /
+	// PostOutboxScheme / NewActivityStreamsHandlerScheme with scheme "http": outcome, status, Location
+	// and final state must be those of the https run (modulo the scheme), also under single faults.
+	nScheme := 0
+	parallel(len(corpus), func(i int) {
+		base := corpus[i]
+		if base.Entry == "Send" {
+			return
+		}
+		alt := *base
+		alt.Name += " [scheme=http]"
+		alt.Scheme = "http"
+		var viols []c10viol
+		classes := map[string]struct{}{}
+		outs := map[string]int{}
+		evals := 0
+		ref := base.Exec(mc.NewExec(nil), false)
+		got := alt.Exec(mc.NewExec(nil), false)
+		evals += 2
+		rep := M{"check": "C10", "scenario": alt.Name, "part": "scheme"}
+		if ref.Panic == nil && got.Panic == nil {
+			norm := func(s string) string { return strings.ReplaceAll(s, "http://l.example", "https://l.example") }
+			if statusOf(ref) != statusOf(got) {
+				viols = append(viols, c10viol{"scheme-variant-differs|outcome|" + base.Entry, fmt.Sprintf("scenario %s: through the Scheme entry point (http world) the outcome is %s (err=%v), through the default entry point (https world) %s", base.Name, statusOf(got), got.Err, statusOf(ref)), rep})
+			} else if ref.App.Canonical() != norm(got.App.Canonical()) {
+				viols = append(viols, c10viol{"scheme-variant-differs|state|" + base.Entry, fmt.Sprintf("scenario %s: the final state reached through the Scheme entry point differs from the default entry point's (modulo the scheme)", base.Name), rep})
+			} else if string(ref.W.Body()) != norm(string(got.W.Body())) {
+				viols = append(viols, c10viol{"scheme-variant-differs|body|" + base.Entry, fmt.Sprintf("scenario %s: served body differs: %s vs %s", base.Name, got.W.Body(), ref.W.Body()), rep})
+			}
+			if got.Err == nil && statusOf(got) == "[201]" {
+				if msg := locationOK(got, got.App.RewriteLocal(alt.URL)); msg != "" {
+					viols = append(viols, c10viol{"bad-location|scheme", fmt.Sprintf("scenario %s: %s", alt.Name, msg), rep})
+				}
+			}
+			classes[alt.Name] = struct{}{}
+			outs["scheme:"+statusOf(got)]++
+		}
+		e := &mc.Explorer{}
+		e.Budget = [3]int{0, 1, 0}
+		e.Run = func(x *mc.Exec) bool {
+			out := alt.Exec(x, true)
+			evals++
+			if out.Panic != nil {
+				return true
+			}
+			f := faultOps(x)
+			if msg := trichotomy(out, 0); msg != "" {
+				viols = append(viols, c10viol{fmt.Sprintf("outcome-not-exactly-once|%s|scheme|faults=%s", alt.Entry, strings.Join(f, ",")),
+					fmt.Sprintf("scenario %s faults %v: %s", alt.Name, f, msg), M{"check": "C10", "scenario": alt.Name, "choices": x.Choices(), "faults": f}})
+			}
+			return true
+		}
+		e.Explore()
+		mu.Lock()
+		nScheme++
+		mu.Unlock()
+		add(evals, classes, outs, viols, nil)
+	})
+	res.Extra["scheme_variant_scenarios"] = nScheme
 	res.Extra["fault_bound_completed"] = bound
 	res.Extra["request_product"] = len(cases)
 	res.Extra["id_and_required_member_cases"] = len(fams)
-	res.Rule = fmt.Sprintf("(1) C07's request product (%d requests); (2) %d inbox/outbox bodies varying 'id' over {absent,null,\"\",number,object,array,relative,absolute-path,absolute IRI} and object/target over {absent,[]} for every type that requires them; (3) each of %d corpus scenarios fault-free and with every choice of <= %d failing seam calls; oracle = counting ResponseWriter + return values; distinct = (case class, outcome) or (scenario, choice list)", len(cases), len(fams), len(corpus), bound)
+	res.Rule = fmt.Sprintf("(1) C07's request product (%d requests); (2) %d inbox/outbox bodies varying 'id' over {absent,null,\"\",number,object,array,relative,absolute-path,absolute IRI} and object/target over {absent,[]} for every type that requires them; (3) each of %d corpus scenarios fault-free and with every choice of <= %d failing seam calls; (4) each corpus scenario again through PostInboxScheme / PostOutboxScheme / NewActivityStreamsHandlerScheme in a world whose own IRIs are http://: same outcome, status, Location, body and final state as the default entry point (modulo the scheme), trichotomy under single faults; oracle = counting ResponseWriter + return values; distinct = (case class, outcome) or (scenario, choice list)", len(cases), len(fams), len(corpus), bound)
 	res.Assumptions = []string{"a denying Authenticate* writes its own 401 (counted as the one status of that request)", "ResponseWriter itself never fails",
 		"Announce/Accept/Reject without object are not asserted (neither code nor documentation requires one)"}
 	return res.Finish()
